@@ -79,11 +79,15 @@ struct Session {
     delivered: u64,
     eof_returns: u32,
     idle_timeouts: u32,
+    /// copies of the current (repeated) segment already delivered in full
+    rep_done: u32,
 }
 
 struct Sim {
     sc: KChild,
     segs: Vec<Vec<(u64, Vec<u8>)>>,
+    /// how often each segment arrives in a row
+    reps: Vec<Vec<u32>>,
     now_us: u64,
     seq: u64,
     steps: u64,
@@ -262,9 +266,11 @@ fn with_sim<T>(f: impl FnOnce(&mut Sim) -> T) -> T {
             Err(_) => -1,
         };
         let segs = sc.connects.iter().map(|c| c.segments.iter().map(|s| (s.at_us, unhex(&s.hex))).collect()).collect();
+        let reps = sc.connects.iter().map(|c| c.segments.iter().map(|s| s.repeat.max(1)).collect()).collect();
         let sim = Sim {
             sc,
             segs,
+            reps,
             now_us: 0,
             seq: 0,
             steps: 0,
@@ -437,7 +443,7 @@ pub mod net {
                     let t = sim.now_us + 500;
                     sim.advance_to(t);
                     let id = sim.sessions.len();
-                    sim.sessions.push(Session { idx: i, start_us: sim.now_us, seg: 0, off: 0, reads: 0, eintr_done: vec![], rst_sent: false, read_timeout_us: None, delivered: 0, eof_returns: 0, idle_timeouts: 0 });
+                    sim.sessions.push(Session { idx: i, start_us: sim.now_us, seg: 0, off: 0, reads: 0, eintr_done: vec![], rst_sent: false, read_timeout_us: None, delivered: 0, eof_returns: 0, idle_timeouts: 0, rep_done: 0 });
                     sim.log(&format!("CONNECT accept session={id}"));
                     Ok(TcpStream { id })
                 }
@@ -529,9 +535,15 @@ pub mod net {
                             n += take;
                             segs_used += 1;
                             if off + take == seg.len() {
-                                k += 1;
-                                sim.sessions[sid].seg = k;
                                 sim.sessions[sid].off = 0;
+                                if sim.sessions[sid].rep_done + 1 < sim.reps[ci][k] {
+                                    // the same bytes once more
+                                    sim.sessions[sid].rep_done += 1;
+                                } else {
+                                    sim.sessions[sid].rep_done = 0;
+                                    k += 1;
+                                    sim.sessions[sid].seg = k;
+                                }
                             } else {
                                 sim.sessions[sid].off = off + take;
                                 break;
